@@ -18,5 +18,12 @@ if not ok:
     print("WARNING: full Coq build failed; individual checks will report")
 ok, out, exe = vlib.build_runner()
 print(out[-2000:])
+# the per-slice harness modules (each check rebuilds its own anyway; building them here only warms the Go cache)
+for d in sorted(os.listdir(".")):
+    if d.startswith("harness_") and os.path.isdir(d):
+        ok2, out2, _ = vlib.build_runner(module=d, exe_name="runner-" + d[len("harness_"):])
+        if not ok2:
+            print("WARNING: %s does not build:\n%s" % (d, out2[-1500:]))
+ok3, out3, _ = vlib.build_runner(race=True)
 sys.exit(0 if ok else 1)
 PY
